@@ -32,6 +32,8 @@ fn coord(rng: &mut Rng) -> i64 {
         1 => rng.range(-50, 50) * 10_000,
         2 => rng.range(-5_000, 5_000) * 100,
         3 => 0,
+        // up to +-30 cm: ten and more digits when written with six decimals (4294.967296 um is 2^32 millionths)
+        4 => rng.range(-3_000_000_000, 3_000_000_000),
         _ => rng.range(-9_999_999, 9_999_999),
     }
 }
@@ -132,7 +134,16 @@ fn coincide(rng: &mut Rng, pts: &mut Vec<(i64, i64)>) {
 
 fn build(rng: &mut Rng) -> Built {
     let nlayers = 1 + rng.usize(6);
-    let layers: Vec<String> = (0..nlayers).map(|i| format!("{}{}", rng.pick(&["met", "via", "li", "poly", "M"]), i + 1)).collect();
+    let mut layers: Vec<String> = (0..nlayers).map(|i| format!("{}{}", rng.pick(&["met", "via", "li", "poly", "M"]), i + 1)).collect();
+    // one library in three: few layers, one of whose names is the beginning of another's (via / via2, met1 / met10, li / li1), so that the
+    // statements alternate between them
+    if rng.chance(1, 3) {
+        let (a, b) = *rng.pick(&[("via", "via2"), ("met1", "met10"), ("li", "li1"), ("m", "m1"), ("poly", "polycont"), ("metal_layer_number_1", "metal_layer_number_10")]);
+        layers = vec![a.to_string(), b.to_string()];
+        if rng.chance(1, 3) {
+            layers.push(format!("{}x", b));
+        }
+    }
     let mut lef = LefLibrary::new();
     if rng.bool() {
         lef.units = Some(LefUnits { database_microns: Some(LefDbuPerMicron(*rng.pick(&[100u32, 1000, 2000, 10_000]))), ..Default::default() });
@@ -150,7 +161,7 @@ fn build(rng: &mut Rng) -> Built {
             let nports = 1 + rng.usize(3);
             let mut ports = Vec::new();
             for _ in 0..nports {
-                let nl = 1 + rng.usize(2);
+                let nl = if rng.chance(1, 4) { 3 + rng.usize(4) } else { 1 + rng.usize(2) };
                 let ls: Vec<LefLayerGeometries> = (0..nl).map(|_| { let l = rng.pick(&layers).clone(); layer_geoms(rng, &l, &mut acc) }).collect();
                 ports.push(LefPort { class: None, layers: ls });
             }
@@ -303,7 +314,27 @@ impl Prop for C16 {
                 } else {
                     None
                 };
-                let lib = match guard(|| LefImporter::import(&b.lef, supplied.clone())) {
+                // one case in six takes the LEF library the way users have it - as a file: written by lef21's writer, read by lef21's reader.
+                // (a library the writer or reader refuses is C05's / C04's business and counted here; the in-memory value is imported then)
+                let via_text: Option<LefLibrary> = if cx.n % 6 == 1 {
+                    let path = cx.tmp("c16.lef");
+                    let r = guard(|| b.lef.save(&path).ok().and_then(|_| LefLibrary::open(&path).ok()));
+                    let _ = std::fs::remove_file(&path);
+                    match r {
+                        Ok(Some(l)) => {
+                            cx.count("imports_of_a_library_read_from_a_file");
+                            Some(l)
+                        }
+                        _ => {
+                            cx.count("file_route_refused_by_writer_or_reader_(C04/C05)");
+                            None
+                        }
+                    }
+                } else {
+                    None
+                };
+                let source: &LefLibrary = via_text.as_ref().unwrap_or(&b.lef);
+                let lib = match guard(|| LefImporter::import(source, supplied.clone())) {
                     Err(c) => {
                         cx.violation(&format!("panic|{}|{}", c.site(), c.norm_msg()), json!({"panic": c.msg, "lef": format!("{:?}", b.lef).chars().take(1500).collect::<String>()}));
                         return;
